@@ -22,7 +22,7 @@ import numpy as np
 from lib import common as C
 
 LEVEL = "proof"
-STATIC = ["Geometry/Dimensionality.vo", "Geometry/DimensionalityProofs.vo", "Geometry/DimensionalityInvariance.vo", "Geometry/RankDet.vo", "Geometry/RankElim.vo", "Geometry/VoltageLattice.vo", "Geometry/InvarianceFull.vo", "Geometry/DimFromTensor.vo", "Geometry/Sublattice.vo", "Geometry/Supercell.vo", "Base/Cover.vo", "Base/CaseUtil.vo"]
+STATIC = ["Geometry/Dimensionality.vo", "Geometry/DimensionalityProofs.vo", "Geometry/DimensionalityInvariance.vo", "Geometry/RankDet.vo", "Geometry/RankElim.vo", "Geometry/VoltageLattice.vo", "Geometry/InvarianceFull.vo", "Geometry/DimFromTensor.vo", "Geometry/Sublattice.vo", "Geometry/Supercell.vo", "Geometry/DimWrapped.vo", "Base/Cover.vo", "Base/CaseUtil.vo"]
 G = 4096  # grid: coordinates are integer multiples of 2^-12
 PREAMBLE = ("From Coq Require Import List ZArith Bool.\nImport ListNotations.\n"
             "From MV Require Import Geometry.Dimensionality Geometry.RankDet Geometry.Supercell.\n")
